@@ -468,6 +468,7 @@ def warm(reg):
         if (bb.ixmax - bb.ixmin) * (bb.iymax - bb.iymin) <= 10000:
             try:
                 reg.to_mask(mode='center')
+                reg.to_mask(mode='subpixels', subpixels=3)
             except NotImplementedError:
                 pass
         reg.area
@@ -491,7 +492,12 @@ def add_history(rng, case, prob=0.2):
     """with some probability give the case a previous parametrisation of the same kind."""
     d = case['region']
     if d['kind'] in HISTORY_KINDS and 'origin' not in d and rng.random() < prob:
-        p = gen_simple(rng, kind=d['kind'], scale=1.0, center_scale=3)
+        if rng.random() < 0.3:
+            # the SAME parameters: the object was merely used before (with other call arguments)
+            import copy
+            p = copy.deepcopy(d)
+        else:
+            p = gen_simple(rng, kind=d['kind'], scale=1.0, center_scale=3)
         p.pop('origin', None)
         case['prev'] = p
     return case
